@@ -42,7 +42,7 @@ let () =
        let rcfg = { c_only_known = (get "ok" "0" = "1"); c_iso_handler = geto "iso"; c_prodinfo = def_prodinfo; c_confinfo = def_confinfo; c_hb_on = hb } in
        let start = if cold then t0 else Z.sub t0 (zi 1000) in
        let r0 = cold_node w64 (zi mode) start (zi (q * ndev)) (zi nsl) pc devs (List.init ndev (fun i -> lst "rx" i)) rcfg in
-       let r0 = if cold then r0 else prelude r0 hb t0 in
+       let r0 = if cold then r0 else prelude gf_none r0 hb t0 in
        let opstrs = String.split_on_char ';' (String.sub line (bar+1) (String.length line - bar - 1)) in
        let ops = List.map (fun s -> match split s with
            | ["T"; dt] -> Some (RBase (OTick (z_of_string dt)))
@@ -59,7 +59,7 @@ let () =
            | ["H"; iv; off; idev] -> Some (RSetHeartbeat (z_of_string iv, z_of_string off, z_of_string idev))
            | _ -> None) opstrs in
        let nonempty = List.map (fun s -> split s <> []) opstrs in
-       let (r, evs) = rrun r0 (List.filter_map (fun x -> x) ops) in
+       let (r, evs) = rrun gf_none r0 (List.filter_map (fun x -> x) ops) in
        if r.r_oob then print_string "oob" else begin
        let rec pr first ops ne evs = match ops, ne with
          | [], _ -> ()
